@@ -131,7 +131,7 @@ func runC20(args []string) error {
 	nt1 := 0
 	refArea, refEvery := 36, 7
 	if f.exh >= 2 {
-		refArea, refEvery = 100, 2
+		refArea, refEvery = 100, 6
 	}
 	t1case := func(w, h, orient, style, bits int, cls string) {
 		scn++
